@@ -106,6 +106,9 @@ func Start(t *testing.T, id string) *Runner {
 		fmt.Sscanf(s, "%d/%d", &r.Shard, &r.NShards)
 	}
 	r.outDir = filepath.Join(r.root, "out", id)
+	if o := os.Getenv("VERIF_OUT"); o != "" {
+		r.outDir = o
+	}
 	if b := envInt("VERIF_BUDGET_S", 0); b > 0 {
 		r.deadline = r.start.Add(time.Duration(b) * time.Second)
 	}
